@@ -510,10 +510,12 @@ def check_C19(tier):
     cp = c.case_path("C19")
     c.mc("Meta", "MC_C19.cfg", dict(Deviations="{}", Emit="Emit"), timeout=900, case_file=cp,
          label="Add -> (Seal/Unseal) -> Tamper -> Get with symbolic boxes: RoundTrip, Authentic, KeyRefusal, Fresh")
-    for dev, inv in [("ConstantNonce", "Fresh"), ("MacNotChecked", "Authentic"), ("ZeroKeyAccepted", "KeyRefusal"), ("PlaintextFallback", "Authentic")]:
+    for dev, inv in [("ConstantNonce", "Fresh"), ("MacNotChecked", "Authentic"), ("ZeroKeyAccepted", "KeyRefusal"), ("PlaintextFallback", "Authentic"),
+                     ("ViewCachesPlaintext", ["KeyRefusal", "Authentic"]), ("SparseKeyRefused", "RoundTrip")]:
         c.mc("Meta", "MC_C19.cfg", dict(Deviations='{"%s"}' % dev, Emit=""), expect_violation=inv, label="sensitivity: " + dev)
-    c.replay("metaenc", cp, rule="carrier {Meta, delegation, invocation} x {string, bytes} API x 4 plaintext classes x 9 key classes for "
-             "adding x through seal/unseal or not x tamper region {none, nonce, mac, body, truncate, extend} x 9 key classes for reading, "
+    c.replay("metaenc", cp, rule="carrier {Meta, its ReadOnly view, delegation, invocation} x {string, bytes} API x 4 plaintext classes x 10 key classes "
+             "(incl. one-hot keys: every position of the single non-zero byte) for adding x through seal/unseal or not x tamper region {none, nonce, "
+             "mac, body, truncate, extend} x 10 key classes for reading x a second read through the SAME view object with each key class, "
              "with the real secretbox; confidentiality and freshness checked on the stored value and the sealed token; non-trivial = added "
              "under a good key")
     tr = c.drive("metabits", 400 if q else 0)
